@@ -53,9 +53,10 @@ Theorem C15_no_processor_identity_rj :
 Proof. exact identity_pipeline_rj. Qed.
 Print Assumptions C15_no_processor_identity_rj.
 
-(* (2b) SupportGenerator._copy_header_using_line_pps: iterating the resource file line by line (Python text mode:
-   `py_lines`) and pushing each (content, terminator) tuple through the pipeline equals line-by-line application to the
-   whole text; in particular an unterminated last line keeps its last character (repaired finding F-COPY-LASTCHAR). *)
+(* (2b) SupportGenerator._copy_header_using_line_pps: iterating the resource file line by line (opened with newline="\n"
+   since fix b0be4ff: lines end at LF only and arrive untranslated = `py_lines`) and pushing each (content, terminator) tuple
+   through the pipeline equals line-by-line application to the whole text: CRLF terminators are kept (repaired finding
+   F-COPY-UNIVERSAL-NEWLINES) and an unterminated last line keeps its last character (repaired finding F-COPY-LASTCHAR). *)
 Theorem C15_copy_header_linewise :
   forall (S : Type) (step : S -> line -> S * line) (text : str) (st : S),
     copy_header step (py_lines text) st = linewise step st text.
@@ -166,6 +167,17 @@ Theorem C15_default_file_nonblank_lines :
     = map trim_line (filter (fun l => negb (blank l)) (split_lines (concat chunks))).
 Proof. exact default_file_nonblank_lines. Qed.
 Print Assumptions C15_default_file_nonblank_lines.
+
+(* ... and for the limiter ALONE (--pp-max-emptylines with a language that does not trim): at most N consecutive EMPTY lines
+   in the file read back (whitespace-only lines are not empty: nothing trimmed them), every non-empty line kept unaltered *)
+Theorem C15_limit_only_file_empty_bound :
+  forall (N : Z) (chunks : list str),
+    (0 <= N)%Z ->
+    runs_ok N 0 (split_lines (snd (write_builtin [PLimit (LimitEmptyLines_init N)] chunks))) = true /\
+    filter (fun l => negb (empty_content l)) (split_lines (snd (write_builtin [PLimit (LimitEmptyLines_init N)] chunks)))
+    = filter (fun l => negb (empty_content l)) (split_lines (concat chunks)).
+Proof. exact limit_only_file_empty_bound. Qed.
+Print Assumptions C15_limit_only_file_empty_bound.
 
 (* the order matters: with the limiter first, whitespace-only lines pass it as non-empty and are emptied afterwards *)
 Example C15_order_matters :
